@@ -174,6 +174,12 @@ def check_C03(run):
     viols = monitor(run, trace)
     report(run, viols, trace, CLAUSES["C03"])
     run.notes.append("long histories: %d runs x %d operations, %d events" % (cfg["runs"], cfg["ops"], lr.get("events", 0)))
+    # 3. truly parallel encrypts (real scheduler): nonce / data-key uniqueness under concurrency
+    sr = run.drv(["env-stress", "-seed", str(run.seed), "-trace", trace, "-long", str(4000 if q else 20000)], timeout=1800)
+    run.absorb(sr, count=False)
+    viols = monitor(run, trace)
+    report(run, viols, trace, CLAUSES["C03"])
+    run.notes.append("parallel stress: %s" % json.dumps(sr.get("extra")))
     return _finish(run, "families: hist, race + %d seeded long histories of %d operations over 8 partitions (AEAD key/nonce uniqueness, wrap discipline, taint search of records, metastore rows, KMS requests and debug log lines)" % (cfg["runs"], cfg["ops"]))
 
 
